@@ -120,7 +120,7 @@ MdApply(st, name, a) ==
          ELSE [st |-> st, ret |-> RList(vals)]
     [] name = "update" -> [st |-> Fold(MdAdd, st, Flatten(a.src)), ret |-> RNone]
     [] name = "ior"    -> [st |-> Fold(MdAdd, st, Flatten(a.src)), ret |-> RSelf]
-    [] name = "or"     -> IF a.form = "pairs" THEN [st |-> st, ret |-> TypeErr]    \* only mappings
+    [] name = "or"     -> IF a.form \in {"pairs", "headers"} THEN [st |-> st, ret |-> TypeErr]    \* only mappings
                           ELSE [st |-> st, ret |-> RNew(MdItemsMulti(Fold(MdAdd, st, Flatten(a.src))))]
     [] name = "pop" ->
          IF has /\ vals # <<>> THEN [st |-> MdDel(st, k), ret |-> RVal(vals[1])]
